@@ -32,14 +32,20 @@ class FGen:
     def fresh(self, p='v', avoid=()):
         """a new variable name; in reuse mode parameters come from a tiny pool so that inner functions
         shadow outer parameters / variables (lexical scoping must sort that out)"""
-        if self.reuse and p == 'p':
+        if self.reuse and p in ('p', 'v', 'f', 'b'):
+            # parameters, for variables and let variables share one tiny pool: a call binds a name that is also
+            # a variable where the call is made (the caller's binding must be untouched after the call)
             pool = [n for n in ('x', 'y', 'z') if n not in avoid]
             return _sf(self.draw, pool)
         self.nvar += 1
         return f'{p}{self.nvar}'
 
     def vars_of(self, sc, kind):
-        return [nm for nm, kd in sc if kd == kind]
+        """names whose INNERMOST binding has the kind"""
+        last = {}
+        for nm, kd in sc:
+            last[nm] = kd
+        return [nm for nm, kd in last.items() if kd == kind]
 
     def param(self, name, typ):
         return [name, typ] if self.typed and self.k(9) < 5 else name
@@ -384,7 +390,8 @@ def closure_program(draw, version='31'):
     """programs that evaluate ONE function expression several times and call the items later"""
     g = FGen(draw, version, max_depth=2)
     pat = _sf(draw, ['for-list', 'for-list', 'for-map', 'curry', 'for-partial', 'static-partial', 'nested-for', 'let-in-for',
-                     'reentrant', 'reentrant', 'hof-closures', 'compose-fold', 'focus-ref'])
+                     'reentrant', 'reentrant', 'hof-closures', 'compose-fold', 'focus-ref',
+                     'empty-closure', 'empty-closure', 'empty-closure', 'focus-partial', 'focus-partial', 'focus-partial'])
     if pat == 'focus-ref':
         # references to context-dependent functions capture the focus of each evaluation
         name = _sf(draw, ['string', 'position', 'last', 'string'])
@@ -396,6 +403,10 @@ def closure_program(draw, version='31'):
             return {'pattern': pat, 'ast': ['map', fs, ['dyn', ['ctx'], []]]}
         calls = [['dyn', ['filter', ['var', 'fs'], ['int', 1 + draw(_upto(2))]], []] for _ in range(2 + draw(_upto(2)))]
         return {'pattern': pat, 'ast': ['let', [['fs', fs]], ['seq', *calls]]}
+    if pat == 'empty-closure':
+        return {'pattern': pat, 'ast': empty_closure_program(draw, g)}
+    if pat == 'focus-partial':
+        return {'pattern': pat, 'ast': focus_partial_program(draw, g)}
     if pat == 'hof-closures':
         # closures made by a HOF callback: for-each(S, function($i) { function($x) { E($i, $x) } })
         inner = ['inline', ['x'], ['arith', '+', ['arith', '*', ['var', 'i'], ['int', 100]],
@@ -471,6 +482,103 @@ def closure_program(draw, version='31'):
     f = ['inline', [x], dep(g.int_(1, ((i, 'int'), (x, 'int'))))]
     return {'pattern': pat, 'ast': ['for', [[i, src]], ['let', [['f', f]], ['seq', ['dyn', ['var', 'f'], [g.lit_int()]],
                                                                             ['dyn', ['var', 'f'], [['var', i]]]]]]}
+
+
+def empty_closure_program(draw, g):
+    """a function item that captured NOTHING is called where a variable with the name of its parameter is
+    bound; that variable is read (directly and through closures) after the call"""
+    nm = _sf(draw, ['x', 'x', 'y', 'a'])
+    V = ['var', nm]
+    S = g.lit_seq(min_len=2)
+    T = g.lit_seq(min_len=1)
+    k1, k2 = g.lit_int(), g.lit_int()
+    body = _sf(draw, [['arith', '*', V, ['int', 2]], ['arith', '+', V, k1], ['arith', '-', k1, V], V])
+    f1 = ['inline', [nm], body]                      # no free variable: its closure is empty
+    read = lambda: _sf(draw, [V, ['dyn', ['inline', [], V], []], ['arith', '+', V, ['int', 0]]])     # noqa: E731
+    k = draw(_upto(9))
+    if k == 0:      # let-bound first (nothing in scope), called inside a for over the same name
+        return ['let', [['d', f1]], ['for', [[nm, S]], ['seq', read(), ['dyn', ['var', 'd'], [k2]], read()]]]
+    if k == 1:      # inline literal passed straight to a HOF
+        hof = ['call', 'for-each', [T, f1]]
+        return ['for', [[nm, S]], ['seq', hof, read()]]
+    if k == 2:
+        p1 = ['inline', [nm], ['vcmp', _sf(draw, _CMP), V, k1]]
+        return ['for', [[nm, S]], ['seq', read(), ['call', 'count', [['call', 'filter', [T, p1]]]], read()]]
+    if k == 3:      # both parameters of a fold callback are names bound at the call site
+        other = 'b' if nm != 'b' else 'c'
+        f2 = ['inline', [nm, other], ['arith', '+', V, ['var', other]]]
+        fold = ['call', _sf(draw, ['fold-left', 'fold-right']), [T, k1, f2]]
+        return ['for', [[nm, S], [other, ['seq', k2]]], ['seq', fold, read(), ['var', other]]]
+    if k == 4:      # immediately applied literal
+        return ['for', [[nm, S]], ['seq', ['dyn', f1, [k2]], read(), ['dyn', f1, [V]], read()]]
+    if k == 5:      # let variable instead of a for variable
+        return ['let', [['d', f1], [nm, k1]], ['seq', ['dyn', ['var', 'd'], [k2]], read(), ['call', 'for-each', [T, ['var', 'd']]], read()]]
+    if k == 6 and g.v == '31':
+        return ['for', [[nm, S]], ['seq', ['call', 'sort', [T, ['empty'], ['inline', [nm], ['neg', V]]]], read(),
+                                  ['call', 'apply', [f1, ['array', [k2]]]], read()]]
+    if k == 7:      # through a partial application of an empty-closure item
+        f2 = ['inline', [nm, 'q'], ['arith', '+', ['arith', '*', V, ['int', 10]], ['var', 'q']]]
+        return ['let', [['d', ['dyn', f2, [['?'], k1]]]], ['for', [[nm, S]], ['seq', ['dyn', ['var', 'd'], [k2]], read()]]]
+    if k == 8:      # simple map: the call happens per focus item, the variable is read afterwards
+        return ['for', [[nm, S]], ['seq', ['map', T, ['dyn', f1, [['ctx']]]], read()]]
+    # nested: the callee itself calls another empty-closure item with the same parameter name
+    g1 = ['inline', [nm], ['arith', '+', ['dyn', f1, [V]], V]]
+    return ['let', [['d', g1]], ['for', [[nm, S]], ['seq', ['dyn', ['var', 'd'], [k2]], read(), ['call', 'for-each', [T, g1]], read()]]]
+
+
+def focus_partial_program(draw, g):
+    """partial application by a dynamic call whose fixed argument depends on the focus; the item is
+    created under one focus and called under another one (or none)"""
+    k = draw(_upto(11))
+    S = g.lit_seq(min_len=2)
+    kint = g.lit_int()
+    add = ['inline', ['a', 'b'], ['arith', '+', ['arith', '*', ['var', 'a'], ['int', 10]], ['var', 'b']]]
+    hole_first = draw(_upto(1)) == 1
+    fixed = _sf(draw, [['ctx'], ['ctx'], ['pos'], ['last'], ['arith', '+', ['ctx'], ['pos']]])
+
+    def args(fx):
+        return [['?'], fx] if hole_first else [fx, ['?']]
+
+    def later(fs, arg):
+        # three ways to call the items after the creating focus is gone
+        kk = draw(_upto(2))
+        if kk == 0:
+            return ['for', [['g', fs]], ['dyn', ['var', 'g'], [arg]]]
+        if kk == 1:
+            return ['map', fs, ['dyn', ['ctx'], [arg]]]                  # the focus is the item itself now
+        return ['let', [['fs', fs]], ['seq', ['dyn', ['filter', ['var', 'fs'], ['int', 2]], [arg]],
+                                      ['dyn', ['filter', ['var', 'fs'], ['int', 1]], [arg]]]]
+    if k < 4:       # inline function through a variable
+        return ['let', [['f', add]], later(['map', S, ['dyn', ['var', 'f'], args(fixed)]], kint)]
+    if k == 4:      # inline literal
+        return later(['map', S, ['dyn', add, args(fixed)]], kint)
+    if k < 7:       # a named reference (concat#2 / concat#3) on strings
+        strs = ['seq', *[['str', _sf(draw, STRS)] for _ in range(2 + draw(_upto(2)))]]
+        if draw(_upto(1)):
+            return ['let', [['c', ['ref', 'concat', 2]]],
+                    later(['map', strs, ['dyn', ['var', 'c'], args(['ctx'])]], ['str', _sf(draw, ['-', '+', ''])])]
+        a3 = [['?'], ['str', '/'], ['ctx']] if hole_first else [['ctx'], ['str', '/'], ['?']]
+        return later(['map', strs, ['dyn', ['ref', 'concat', 3], a3]], ['str', _sf(draw, ['-', '+'])])
+    if k == 7:      # name() of the context node
+        fx = _sf(draw, [['call', 'name', []], ['call', 'string', []], ['call', 'name', [['ctx']]]])
+        return ['let', [['c', ['ref', 'concat', 2]]],
+                later(['map', ['nodes', _sf(draw, ['all', 'a', 'ad'])], ['dyn', ['var', 'c'], args(fx)]], ['str', '-'])]
+    if k == 8:      # a child step as fixed argument
+        cnt = ['inline', ['n', 's'], ['arith', '+', ['arith', '*', ['var', 'n'], ['int', 10]], ['call', 'count', [['var', 's']]]]]
+        step = ['step', _sf(draw, ['a', 'b', '*', 'zz'])]
+        return ['let', [['f', cnt]], later(['map', ['seq', ['nodes', 'r'], ['nodes', 'r']], ['dyn', ['var', 'f'], [['?'], step]]], kint)]
+    if k == 9:      # created in a predicate-filtered focus, called inside another simple map
+        fs = ['map', ['filter', S, ['vcmp', 'ge', ['pos'], ['int', 1]]], ['dyn', ['var', 'f'], args(fixed)]]
+        return ['let', [['f', add]], ['map', g.lit_seq(min_len=2), ['for', [['g', fs]], ['dyn', ['var', 'g'], [['ctx']]]]]]
+    if k == 10:     # partial of a partial, the second fixed argument under a different focus
+        f3 = ['inline', ['a', 'b', 'c'], ['arith', '+', ['arith', '*', ['var', 'a'], ['int', 100]],
+                                          ['arith', '+', ['arith', '*', ['var', 'b'], ['int', 10]], ['var', 'c']]]]
+        first = ['map', S, ['dyn', ['var', 'f'], [['ctx'], ['?'], ['?']]]]
+        second = ['map', g.lit_seq(min_len=2), ['for', [['h', ['var', 'ps']]], ['dyn', ['var', 'h'], [['?'], ['ctx']]]]]
+        return ['let', [['f', f3], ['ps', first]], ['for', [['g', second]], ['dyn', ['var', 'g'], [kint]]]]
+    # a HOF applies the items later
+    return ['let', [['f', add]], ['call', 'for-each', [['map', S, ['dyn', ['var', 'f'], args(fixed)]],
+                                                      ['inline', ['g'], ['dyn', ['var', 'g'], [kint]]]]]]
 
 
 def reentrant_program(draw, g):
@@ -678,3 +786,28 @@ def misuse_case(draw):
         'control-ok': c('filter', S, p1),
     }[kind]
     return {'v': v, 'kind': kind, 'ast': ast}
+
+
+# --------------------------------------------------------------------------
+# sort of heterogeneous items that are == / hash-equal in python but distinct XPath values
+# --------------------------------------------------------------------------
+HET_NUM = [['bool', True], ['bool', False], ['int', 1], ['int', 0], ['int', 2], ['dec', '1.0'], ['dec', '0.0'],
+           ['dbl', '1.0'], ['dbl', '0.0'], ['dbl', '2.0'], ['flt', '1.0'], ['flt', '0.0']]
+HET_STR = [['str', 'b'], ['str', 'a'], ['unt', 'b'], ['unt', 'a'], ['uri', 'b'], ['uri', 'a']]
+HET_KEYS_NUM = ['bool-offset', 'type-rank', 'rank-plus-value', 'neg-rank-plus-value', 'bool-last']
+HET_KEYS_STR = ['type-rank', 'rank-and-string', 'string-only']
+
+
+@st.composite
+def hetero_sort_case(draw):
+    pool = _sf(draw, ['num', 'num', 'str', 'mixed'])
+    src = HET_NUM if pool == 'num' else HET_STR if pool == 'str' else HET_NUM + HET_STR
+    n = 2 + draw(_upto(8))
+    items = [_sf(draw, src) for _ in range(n)]
+    if draw(_upto(1)):      # make sure python-equal twins are present
+        items[0:0] = [['int', 1], ['bool', True], ['dbl', '1.0']] if pool != 'str' else [['unt', 'b'], ['str', 'b'], ['uri', 'b']]
+        if draw(_upto(1)):
+            items.reverse()
+    keyfn = _sf(draw, HET_KEYS_NUM if pool == 'num' else HET_KEYS_STR if pool == 'str' else ['type-rank'])
+    return {'v': '31', 'items': items, 'keyfn': keyfn, 'fn': _sf(draw, ['sort', 'sort', 'array:sort']),
+            'via': _sf(draw, ['inline', 'let'])}
